@@ -1,7 +1,7 @@
 """Symbolic state: environment, Boogie-style heap (one map per field), path condition."""
 import z3
 
-from pv.values import (V, VInt, VBool, VStr, VNONE, VNoneT, VTuple, VRef, VList, VOpt, VPy, VFn, VAny,
+from pv.values import (VMap, V, VInt, VBool, VStr, VNONE, VNoneT, VTuple, VRef, VList, VOpt, VPy, VFn, VAny,
                        OutOfSubset, fresh_name, I, B, S)
 
 ARR_II = z3.ArraySort(I, I)
@@ -84,6 +84,27 @@ class State:
     def larr(self, l, ek):
         name, srt = ('$elS', ARR_IS) if ek == 'str' else ('$elR', ARR_II)
         return z3.Select(self.arr(name, z3.ArraySort(I, srt)), l)
+
+    # ---- dicts: $mhasS[m][key] / $mvalS[m][key] for str keys, $mhasR / $mvalR for int or reference keys
+    def _marr(self, m, what, kk):
+        ks = S if kk == 'str' else I
+        name = '$m%s%s' % (what, 'S' if kk == 'str' else 'R')
+        rng_ = z3.ArraySort(ks, B if what == 'has' else I)
+        return name, rng_, z3.Select(self.arr(name, z3.ArraySort(I, rng_)), m)
+
+    def mhas(self, m, key, kk):
+        return z3.Select(self._marr(m, 'has', kk)[2], key)
+
+    def mval(self, m, key, kk):
+        return z3.Select(self._marr(m, 'val', kk)[2], key)
+
+    def mput(self, m, key, val, kk):
+        for what, v in (('has', z3.BoolVal(True)), ('val', val)):
+            name, rng_, cur = self._marr(m, what, kk)
+            new = z3.Store(cur, key, v)
+            if self.guards:
+                new = z3.If(z3.And(self.guards), new, cur)
+            self.heap[name] = z3.Store(self.arr(name, z3.ArraySort(I, rng_)), m, new)
 
     def alloc(self, base='obj'):
         """Fresh object reference: non-null and not allocated before."""
